@@ -126,6 +126,65 @@ func buildTemplate() {
 	n.closeNode()
 }
 
+var (
+	hubTemplateOnce sync.Once
+	hubTemplateDir  string
+	hubTemplateNon  map[string]uint64
+)
+
+// buildHubTemplate: world option hub=1.  On top of the fixed world another BitXHub (id 9999, validators val-1..val-4) is registered as
+// an available relay chain by its admin ca9: blocks 7..11 (fund ca9, RegisterAppchain, three approving votes one block each), the
+// same five blocks scripted_interhub spells out as ops.  Mirrored by the Lean driver (cfg.hubs, height 11)
+func buildHubTemplate() {
+	hubTemplateDir = mustTempDir("bxhverif-tplhub-")
+	os.RemoveAll(hubTemplateDir)
+	if err := copyDir(templateDir, hubTemplateDir); err != nil {
+		templateErr = err
+		return
+	}
+	n, err := openNode(hubTemplateDir, mkConfig(false, "parallel"), 1)
+	if err != nil {
+		templateErr = err
+		return
+	}
+	n.nonces = map[string]uint64{}
+	for k, v := range templateNon {
+		n.nonces[k] = v
+	}
+	must := func(rs []*pb.Receipt, what string) bool {
+		for _, r := range rs {
+			if !r.IsSuccess() {
+				templateErr = fmt.Errorf("hub prelude %s failed: %s", what, string(r.Ret))
+				return false
+			}
+		}
+		return true
+	}
+	if !must(n.runBlock([]pb.Transaction{n.xferTx("adm0", acct("ca9").addr, "100000000000")}), "fund") {
+		return
+	}
+	trust, _ := parseArg("trust:1,2,3,4")
+	rs := n.runBlock([]pb.Transaction{n.bvmTx("ca9", constant.AppchainMgrContractAddr.Address(), "RegisterAppchain",
+		pb.String("9999"), pb.String("name-9999"), pb.Bytes([]byte("")), pb.String("relaychain"), trust, pb.String("0xbroker"),
+		pb.String("desc"), pb.String(validator.HappyRuleAddr), pb.String("url"), pb.String(acct("ca9").addr.String()), pb.String("reason"))})
+	if !must(rs, "register hub") {
+		return
+	}
+	g := &governance.GovernanceResult{}
+	if err := json.Unmarshal(rs[0].Ret, g); err != nil || g.ProposalID == "" {
+		templateErr = fmt.Errorf("hub prelude: no proposal")
+		return
+	}
+	for _, a := range adminNames[:3] {
+		if !must(n.runBlock([]pb.Transaction{n.bvmTx(a, constant.GovernanceContractAddr.Address(), "Vote",
+			pb.String(g.ProposalID), pb.String(string(contracts.APPROVED)), pb.String("reason"))}), "vote hub") {
+			return
+		}
+	}
+	hubTemplateNon = n.nonces
+	n.closeNode()
+}
+
 // voteAll: three approving votes for the proposal created by each receipt, one block
 func (n *node) voteAll(rs []*pb.Receipt) []*pb.Receipt {
 	var txs []pb.Transaction
@@ -240,6 +299,9 @@ func (e *execEngine) close() {
 	if templateDir != "" {
 		rmDir(templateDir)
 	}
+	if hubTemplateDir != "" {
+		rmDir(hubTemplateDir)
+	}
 }
 
 func (e *execEngine) reset() {
@@ -284,6 +346,14 @@ func (e *execEngine) step(ws []string) string {
 		e.reset()
 		propMap, propNext, e.attempt = map[string]map[int]int{}, map[string]int{}, ""
 		o := kv(ws[1:])
+		tplDir, tplNon := templateDir, templateNon
+		if o["hub"] == "1" {
+			hubTemplateOnce.Do(buildHubTemplate)
+			if templateErr != nil {
+				fail("hub template: %v", templateErr)
+			}
+			tplDir, tplNon = hubTemplateDir, hubTemplateNon
+		}
 		price, _ := strconv.ParseInt(o["price"], 10, 64)
 		if o["price"] == "" {
 			price = 1
@@ -299,7 +369,7 @@ func (e *execEngine) step(ws []string) string {
 		for i := 0; i < reps; i++ {
 			d := mustTempDir("bxhverif-n-")
 			os.RemoveAll(d)
-			if err := copyDir(templateDir, d); err != nil {
+			if err := copyDir(tplDir, d); err != nil {
 				fail("copy: %v", err)
 			}
 			cfg := mkConfig(o["audit"] == "1", pt)
@@ -319,7 +389,7 @@ func (e *execEngine) step(ws []string) string {
 				fail("open: %v", err)
 			}
 			n.nonces = map[string]uint64{}
-			for k, v := range templateNon {
+			for k, v := range tplNon {
 				n.nonces[k] = v
 			}
 			e.nodes = append(e.nodes, n)
@@ -327,7 +397,7 @@ func (e *execEngine) step(ws []string) string {
 		if o["pipe"] == "1" {
 			d := mustTempDir("bxhverif-n-")
 			os.RemoveAll(d)
-			if err := copyDir(templateDir, d); err != nil {
+			if err := copyDir(tplDir, d); err != nil {
 				fail("copy: %v", err)
 			}
 			n, err := openNode(d, mkConfig(o["audit"] == "1", pt), price)
